@@ -96,8 +96,8 @@ func runTArith(m *model.Model, s *ob.Set, alias bool) {
 		name string
 		b    []int
 	}
-	precSets2 := [][]int64{{10, 10, 10}, {5, 10, 10}, {0, 10, 7}}
-	precSets3 := [][]int64{{10, 10, 10, 10}, {5, 10, 10, 10}, {0, 7, 10, 8}}
+	precSets2 := [][]int64{{10, 10, 10}, {5, 10, 10}, {0, 10, 7}, {0, 7, 10}}
+	precSets3 := [][]int64{{10, 10, 10, 10}, {5, 10, 10, 10}, {0, 7, 10, 8}, {0, 7, 8, 10}, {0, 10, 8, 7}}
 	for _, op := range []string{"Add", "Sub", "Mul", "Quo"} {
 		fn := m.Lookup("(*Decimal)." + op)
 		binds := []binding{{"", []int{0, 1, 2}}}
